@@ -8,7 +8,8 @@ COMMON_NOTE = ('Trusted: Coq 8.16.1 kernel (no axioms: Print Assumptions of ever
                'correspondence run (extracted OCaml model vs the real API on the same cases, a sample re-evaluated by vm_compute '
                'inside Coq), by tools/translate.py for the declarative parts (Gen/*.v regenerated from /repo/src on every run), and - second tie for the '
                'reader logic - by tools/translate_core.py, which regenerates Gallina definitions of every reader method from the source (coq/core/CoreGen.v) '
-               'that are proved equal to the hand-written model (coq/core/CoreGenP.v, 40 equalities); when that second tie is lost the correspondence run is deepened; '
+               'that are proved equal to the hand-written model (coq/core/CoreGenP.v, 40 equalities), and tools/translate_views.py, which does the same for record views, '
+               'SeqLines, owned copies, writer loops and the set / owned-record iterators (coq/core/ViewsGen.v, RecordsGen.v, 64 equalities); when that second tie is lost the correspondence run is deepened; '
                'extraction (ExtrOcamlBasic only); the Rust harness. Modelled, not verified: buffer_redux window semantics, memchr, '
                'std iterator adaptors, serde_derive, channel/thread-pool primitives (DESIGN.md section 8).')
 
